@@ -1,16 +1,33 @@
 // UNIT: id=C13
-// ASSUME: prefix sums are arbitrary monotone arrays with entries < 2^20 (so weights cannot overflow 64 bits); the prefix-sum container is a plain array wrapper
+// ASSUME: prefix sums are arbitrary monotone arrays with entries < 2^10 (so weights cannot overflow 64 bits); the prefix-sum container is a plain array wrapper
 // OB: ob_block_range_small tier=quick unwind=10 timeout=600 bounds="block_range<uint32_t>: num<=8 parts, size<=40, all (b,e,id) symbolic; checks A_0=b, B_last=e, B_id=A_{id+1}, monotone" desc="CBMC cross-check of block_range at small widths (full width is decided by the integer back end)"
 // OB: ob_block_range_iter tier=quick unwind=10 timeout=600 bounds="block_range<int*>: num<=4 parts, array<=9" desc="iterator overload equals the integer overload"
-// OB: ob_corner_case tier=quick unwind=8 timeout=600 bounds="unitRangeCornerCaseHandle: units<=5, begin<=end<2^31 symbolic" desc="corner-case unit ranges start at begin, end at end, are monotone"
-// OB: ob_divide_nodes tier=quick unwind=8 timeout=900 bounds="divideNodesBinarySearch: nodes<=5, parts<=4, monotone prefix sum < 2^20, weights<=4 (not both 0), all ids in one query" desc="node and edge ranges of consecutive divisions tile [0,numNodes) and [0,numEdges)"
-// OB: ob_divide_nodes_scale tier=quick unwind=8 timeout=900 bounds="as above with a symbolic scale-factor vector (entries 0..3, sum>=1), parts<=3" desc="scale-factor division tiles the ranges"
-// OB: ob_unit_ranges_prefix tier=quick unwind=8 timeout=900 bounds="determineUnitRangesFromPrefixSum(begin,end): nodes<=5, units<=4, sub-range symbolic" desc="unit ranges over a sub-range: ranges[0]=begin, ranges[units]=end, monotone"
+// OB: ob_corner_case tier=quick unwind=8 timeout=600 params=5 bounds="unitRangeCornerCaseHandle: units 1..5 (one query each), begin<=end<2^31 symbolic" desc="corner-case unit ranges start at begin, end at end, are monotone"
+// OB: ob_divide_nodes tier=quick unwind=6 timeout=900 solver=kissat params=4 bounds="divideNodesBinarySearch: nodes<=5, parts 1..4 (one query each), symbolic id (pieces id, id+1), monotone prefix sum < 2^10, weights<=4 (not both 0)" desc="node ranges of consecutive divisions tile [0,numNodes); edge range = edges of node range"
+// OB: ob_divide_nodes_scale tier=quick unwind=6 timeout=900 solver=kissat params=4 bounds="as above with a symbolic scale-factor vector (entries 0..3, sum>=1)" desc="scale-factor division tiles the ranges"
+// OB: ob_divide_nodes_offsets tier=quick unwind=6 timeout=900 solver=kissat params=4 bounds="as above with symbolic nodeOffset<=2 and the matching edgeOffset (partial prefix sum)" desc="division of a sub-range of a global prefix sum"
+// OB: ob_unit_ranges_prefix tier=quick unwind=6 timeout=900 solver=kissat params=4 bounds="determineUnitRangesFromPrefixSum(begin,end): nodes<=5, units 1..4 (one query each), sub-range symbolic" desc="unit ranges over a sub-range: ranges[0]=begin, ranges[units]=end, monotone"
+// SMT: name=block_range_u64 kernel=k_block_range_u64 spec=C13_block_range_u64.smt2 tier=quick bounds="block_range<uint64_t>: ALL b<=e<2^64, 1<=num<2^32, id<num with (e-b)+2*num < 2^64 (the overflow threshold; the side obligations prove no multiplication wraps below it)" desc="pieces id and id+1 adjacent, first starts at b, last ends at e, all inside [b,e] -- full width, integer back end"
+// SMT: name=block_range_u32 kernel=k_block_range_u32 spec=C13_block_range_u32.smt2 tier=quick bounds="block_range<uint32_t>: ALL b<=e<2^32, 1<=num, id<num with (e-b)+2*num < 2^32" desc="same statement for 32-bit integers"
 #include "vf.h"
 #include "galois/gstl.h"
 #include "galois/graphs/GraphHelpers.h"
 #include "../../repo/libgalois/src/GraphHelpers.cpp"
 
+extern "C" __attribute__((noinline)) void k_block_range_u64(uint64_t b, uint64_t e, unsigned id, unsigned num, uint64_t* A, uint64_t* B) {
+  auto r = galois::block_range(b, e, id, num);
+  *A = r.first;
+  *B = r.second;
+}
+extern "C" __attribute__((noinline)) void k_block_range_u32(uint32_t b, uint32_t e, unsigned id, unsigned num, uint32_t* A, uint32_t* B) {
+  auto r = galois::block_range(b, e, id, num);
+  *A = r.first;
+  *B = r.second;
+}
+
+#ifndef VF_PS_MAX
+#define VF_PS_MAX (1u << 10)
+#endif
 namespace {
 struct PS { // prefix-sum object
   uint64_t a[8];
@@ -20,9 +37,9 @@ struct PS { // prefix-sum object
 
 void make_prefix(PS& ps, unsigned n) {
   uint64_t prev = 0;
-  for (unsigned i = 0; i < 8; ++i) {
+  for (unsigned i = 0; i < 5; ++i) {
     uint64_t v = vf_nondet_u32();
-    vf_assume(v >= prev && v < (1u << 20));
+    vf_assume(v >= prev && v < VF_PS_MAX);
     ps.a[i] = v;
     prev    = v;
   }
@@ -55,8 +72,8 @@ OB(block_range_iter) {
 }
 
 OB(corner_case) {
-  uint32_t units = vf_nondet_u32(), b = vf_nondet_u32(), e = vf_nondet_u32();
-  vf_assume(units >= 1 && units <= 5 && b <= e && e < (1u << 31));
+  uint32_t units = vf_param(0) + 1, b = vf_nondet_u32(), e = vf_nondet_u32();
+  vf_assume(b <= e && e < (1u << 31));
   std::vector<uint32_t> r;
   r.resize(units + 1);
   bool handled = galois::graphs::internal::unitRangeCornerCaseHandle(units, b, e, r);
@@ -69,54 +86,65 @@ OB(corner_case) {
   }
 }
 
-static void divide_all(bool withScale) {
+struct DivOut { uint64_t nl, nu, el, eu; };
+static DivOut call_divide(PS& ps, uint32_t numNodes, uint64_t numEdges, size_t nw, size_t ew, size_t id, size_t total,
+                          const unsigned* scale, unsigned nscale, uint64_t eoff, uint64_t noff) {
+  std::vector<unsigned> sf;
+  for (unsigned i = 0; i < nscale; ++i) sf.push_back(scale[i]);
+  auto r = galois::graphs::divideNodesBinarySearch<PS, uint32_t>(numNodes, numEdges, nw, ew, id, total, ps, sf, eoff, noff);
+  return DivOut{*r.first.first, *r.first.second, *r.second.first, *r.second.second};
+}
+
+// Symbolic division index: pieces id and id+1 are adjacent, piece 0 starts at 0, the last piece ends at numNodes,
+// and the edge range of a non-empty piece is exactly the edges of its nodes.  By induction over id this is the
+// disjoint in-order cover of [0,numNodes) and [0,numEdges) for every part count within the bound.
+static void divide_step(bool withScale, bool withOffsets) {
   PS ps;
   uint32_t numNodes = vf_nondet_u32();
-  unsigned total = vf_nondet_u32();
+  unsigned total = vf_param(0) + 1, id = vf_nondet_u32();
   size_t nw = vf_nondet_u8(), ew = vf_nondet_u8();
-  vf_assume(numNodes <= 5 && total >= 1 && total <= (withScale ? 3u : 4u));
+  uint32_t noff = withOffsets ? vf_nondet_u8() : 0;
+  vf_assume(numNodes <= 5 && noff <= 2 && numNodes + noff <= 5 && id < total);
   vf_assume(nw <= 4 && ew <= 4 && (nw != 0 || ew != 0));
-  make_prefix(ps, numNodes);
-  uint64_t numEdges = numNodes ? ps.a[numNodes - 1] : 0;
-  std::vector<unsigned> scale;
+  make_prefix(ps, 5);
+  uint64_t eoff = noff ? ps.a[noff - 1] : 0;
+  uint64_t numEdges = numNodes ? ps.a[numNodes + noff - 1] - eoff : 0;
+  unsigned scale[4];
+  unsigned nscale = 0;
   if (withScale) {
     unsigned sum = 0;
-    for (unsigned i = 0; i < total; ++i) {
-      unsigned s = vf_nondet_u8();
-      vf_assume(s <= 3);
-      scale.push_back(s);
-      sum += s;
+    for (unsigned i = 0; i < 4; ++i) {
+      scale[i] = vf_nondet_u8();
+      vf_assume(scale[i] <= 3);
+      if (i < total) sum += scale[i];
     }
     vf_assume(sum >= 1);
+    nscale = total;
   }
-  uint64_t nodeCursor = 0, edgeCursor = 0;
-  for (unsigned id = 0; id < total; ++id) {
-    auto r = galois::graphs::divideNodesBinarySearch<PS, uint32_t>(numNodes, numEdges, nw, ew, id, total, ps, scale, 0, 0);
-    uint64_t nl = *r.first.first, nu = *r.first.second, el = *r.second.first, eu = *r.second.second;
-    VF_CHECKM(nl <= nu && nu <= numNodes, "node range ordered and inside");
-    if (numNodes == 0) continue;
-    VF_CHECKM(nl == nodeCursor, "node ranges of consecutive divisions are adjacent (disjoint, in order)");
-    nodeCursor = nu;
-    if (nl != nu) {
-      VF_CHECKM(el == edgeCursor, "edge ranges of consecutive non-empty divisions are adjacent");
-      VF_CHECKM(el <= eu && eu <= numEdges, "edge range ordered and inside");
-      VF_CHECKM(el == (nl ? ps.a[nl - 1] : 0) && eu == ps.a[nu - 1], "edge range is exactly the edges of the node range");
-      edgeCursor = eu;
-    }
+  DivOut r = call_divide(ps, numNodes, numEdges, nw, ew, id, total, scale, nscale, eoff, noff);
+  VF_CHECKM(r.nl <= r.nu && r.nu <= numNodes, "node range ordered and inside [0,numNodes]");
+  if (numNodes == 0) return;
+  if (id == 0) VF_CHECKM(r.nl == 0, "first division starts at node 0");
+  if (id == total - 1) VF_CHECKM(r.nu == numNodes, "last division ends at numNodes");
+  if (r.nl != r.nu) {
+    uint64_t lo = (r.nl + noff) ? ps.a[r.nl + noff - 1] - eoff : 0;
+    VF_CHECKM(r.el == lo && r.eu == ps.a[r.nu + noff - 1] - eoff, "edge range is exactly the edges of the node range");
+    VF_CHECKM(r.el <= r.eu && r.eu <= numEdges, "edge range ordered and inside [0,numEdges]");
   }
-  if (numNodes) {
-    VF_CHECKM(nodeCursor == numNodes, "divisions cover all nodes");
-    VF_CHECKM(edgeCursor == numEdges, "divisions cover all edges");
+  if (id + 1 < total) {
+    DivOut q = call_divide(ps, numNodes, numEdges, nw, ew, id + 1, total, scale, nscale, eoff, noff);
+    VF_CHECKM(q.nl == r.nu, "consecutive divisions are adjacent (disjoint, in order, no gap)");
   }
 }
-OB(divide_nodes) { divide_all(false); }
-OB(divide_nodes_scale) { divide_all(true); }
+OB(divide_nodes) { divide_step(false, false); }
+OB(divide_nodes_scale) { divide_step(true, false); }
+OB(divide_nodes_offsets) { divide_step(false, true); }
 
 OB(unit_ranges_prefix) {
   PS ps;
   make_prefix(ps, 5);
-  uint32_t units = vf_nondet_u32(), b = vf_nondet_u32(), e = vf_nondet_u32(), alpha = vf_nondet_u8();
-  vf_assume(units >= 1 && units <= 4 && b <= e && e <= 5 && alpha <= 2);
+  uint32_t units = vf_param(0) + 1, b = vf_nondet_u32(), e = vf_nondet_u32(), alpha = vf_nondet_u8();
+  vf_assume(b <= e && e <= 5 && alpha <= 2);
   std::vector<uint32_t> r = galois::graphs::determineUnitRangesFromPrefixSum(units, ps, b, e, alpha);
   VF_CHECK(r.size() == units + 1);
   VF_CHECKM(r[0] == b, "ranges[0] == begin");
